@@ -141,13 +141,19 @@ func (o *Object) compress() (bytes.Buffer, error) {
 }
 
 func (o *Object) Write(rootGoitPath string) error {
+	dirPath := filepath.Join(rootGoitPath, "objects", o.Hash.String()[:2])
+	filePath := filepath.Join(dirPath, o.Hash.String()[2:])
+
+	// an object is addressed by its content: what is already stored under this id is never rewritten
+	if f, err := os.Stat(filePath); err == nil && f.Mode().IsRegular() {
+		return nil
+	}
+
 	buf, err := o.compress()
 	if err != nil {
 		return err
 	}
 
-	dirPath := filepath.Join(rootGoitPath, "objects", o.Hash.String()[:2])
-	filePath := filepath.Join(dirPath, o.Hash.String()[2:])
 	if f, err := os.Stat(dirPath); err != nil || !f.IsDir() {
 		if err := os.Mkdir(dirPath, os.ModePerm); err != nil {
 			return fmt.Errorf("%w: %s", ErrIOHandling, dirPath)
